@@ -316,10 +316,15 @@ def gen_plan(rng, tier, idx):
         if itr["type"] == "fixed":
             others_times.extend(itr["times"])
         trackers.append({"kind": _pick(rng, EXTRA_KINDS), "interrupt": itr})
-    return {"engine": "noise-sim", "prop": PROPERTY, "mode": mode, "backend": backend, "solver": solver, "grid": grid,
+    plan = {"engine": "noise-sim", "prop": PROPERTY, "mode": mode, "backend": backend, "solver": solver, "grid": grid,
             "state": state, "eq": eq, "noise": noise, "interp": interp, "interp_via": "attr" if rng.random() < 0.35 else "ctor",
             "dt": dt, "n": n, "t_start": t_start,
             "seed": rng.randrange(1 << 30), "trackers": trackers}
+    # an earlier use of the same equation object (and generator): a short run with another step; afterwards the
+    # generator is put back to its initial state, so that the planned run is judged exactly as without it (drawn last)
+    if rng.random() < 0.25:
+        plan["prior"] = {"n": rng.randint(1, 3), "dt_factor": _pick(rng, (0.5, 0.25, 1.0, 0.37))}
+    return plan
 
 
 # ======================================================================================
@@ -645,6 +650,17 @@ def _run(plan, B: _Built, *, probe: bool, extras: bool, deterministic: bool = Fa
 
         np.random.randn = randn
     try:
+        if plan.get("prior"):
+            dt_p = dt * plan["prior"]["dt_factor"]
+            eq.solve(B.make_state(), t_range=(t0, t0 + plan["prior"]["n"] * dt_p), dt=dt_p, solver=solver, backend=plan["backend"],
+                     tracker=None, **kw)
+            # back to the start: the planned run sees the generator as if the equation had never been used
+            gen.bit_generator.state = np.random.PCG64(int(plan["seed"])).state
+            gen.normals.clear()
+            gen.others.clear()
+            out["randn"].clear()
+            if numba_mode:
+                np.random.seed(int(plan["seed"]) % (1 << 32))
         res, info = eq.solve(state0, t_range=(t0, t_end), dt=dt, solver=solver, backend=plan["backend"],
                              tracker=trackers or None, ret_info=True, **kw)
         out["final"] = np.array(res.data, copy=True)
@@ -1058,6 +1074,8 @@ def simplify(plan):
         keep = {k: v for k, v in plan["noise"].items() if k == "zero_form"}
         first = next((v for v in plan["noise"]["vars"] if v), 0.0)
         yield variant(lambda p: p.update(noise={"kind": "scalar", "vars": [first], **keep}))
+    if plan.get("prior"):
+        yield variant(lambda p: p.pop("prior"))
     if plan["interp"] != "ito":
         yield variant(lambda p: p.update(interp="ito"))
     if plan.get("interp_via") == "attr":
